@@ -625,16 +625,27 @@ func (sk sortedKeys) Len() int {
 }
 
 func (sk sortedKeys) Less(i, j int) bool {
-	vi := &Value{val: resolveInterface(sk[i])}
-	vj := &Value{val: resolveInterface(sk[j])}
+	return lessValues(&Value{val: resolveInterface(sk[i])}, &Value{val: resolveInterface(sk[j])})
+}
+
+// lessValues is the order `sorted` and the iteration over maps use: numbers come first,
+// in numerical order (two integers are compared as integers), everything else follows
+// ordered by its text; values that print alike (structs, arrays) are told apart by their
+// content, so that the order does not depend on the order the values arrived in.
+func lessValues(vi, vj *Value) bool {
 	switch {
 	case vi.IsInteger() && vj.IsInteger():
 		return vi.Integer() < vj.Integer()
-	case vi.IsFloat() && vj.IsFloat():
+	case vi.IsNumber() && vj.IsNumber():
 		return vi.Float() < vj.Float()
-	default:
-		return vi.String() < vj.String()
+	case vi.IsNumber() != vj.IsNumber():
+		return vi.IsNumber()
 	}
+	si, sj := vi.String(), vj.String()
+	if si != sj {
+		return si < sj
+	}
+	return fmt.Sprintf("%v", vi.Interface()) < fmt.Sprintf("%v", vj.Interface())
 }
 
 func (sk sortedKeys) Swap(i, j int) {
@@ -648,16 +659,7 @@ func (vl valuesList) Len() int {
 }
 
 func (vl valuesList) Less(i, j int) bool {
-	vi := vl[i]
-	vj := vl[j]
-	switch {
-	case vi.IsInteger() && vj.IsInteger():
-		return vi.Integer() < vj.Integer()
-	case vi.IsFloat() && vj.IsFloat():
-		return vi.Float() < vj.Float()
-	default:
-		return vi.String() < vj.String()
-	}
+	return lessValues(vl[i], vl[j])
 }
 
 func (vl valuesList) Swap(i, j int) {
